@@ -560,7 +560,7 @@ func (e *Engine) indexAddr(fr *Frame, st *State, x *ssa.IndexAddr) Val {
 	case SliceV:
 		e.oblige("index", fmt.Sprintf("index#%d", e.ordinal("index")), st.guard, And(a.idxLe(a.idxLit(0), i), a.idxLt(i, b.Len)), x.Pos())
 		el := b.Ty.Underlying().(*types.Slice).Elem()
-		return PtrV{Ty: x.Type(), Rid: b.Rid, Idx: a.idxAdd(b.Off, i), Root: el, NonNil: true}
+		return PtrV{Ty: x.Type(), Rid: b.Rid, Idx: e.elemIdx(b.Off, i), Root: el, NonNil: true}
 	case PtrV:
 		at, ok := b.Ty.Underlying().(*types.Pointer).Elem().Underlying().(*types.Array)
 		if !ok {
@@ -579,7 +579,7 @@ func (e *Engine) indexAddr(fr *Frame, st *State, x *ssa.IndexAddr) Val {
 			return np
 		}
 		if b.ArrBase {
-			return PtrV{Ty: x.Type(), Rid: b.Rid, Idx: a.idxAdd(b.Idx, i), Root: b.Root, NonNil: true}
+			return PtrV{Ty: x.Type(), Rid: b.Rid, Idx: e.elemIdx(b.Idx, i), Root: b.Root, NonNil: true}
 		}
 		if e.ar.scalarSortOrEmpty(at.Elem()) == "" {
 			unsupp("address of composite array element in struct")
